@@ -43,8 +43,12 @@ func (fx *FuncExec) call(ps *pathState, x *ssa.Call) {
 		ps.stopped = true
 		return
 	}
-	// rule-site assertions before the call
-	fx.siteAsserts(ps, site, "before", nil)
+	// rule-site assertions before the call; arg0, arg1, ... name the actual arguments (receiver first)
+	argVars := map[string]Val{}
+	for i, a := range args {
+		argVars[fmt.Sprintf("arg%d", i)] = a
+	}
+	fx.siteAsserts(ps, site, "before", argVars)
 
 	var callee *ssa.Function
 	var bindings []Val
